@@ -824,6 +824,15 @@ func (ex *Exec) convert(v Value, from, to types.Type, st *State) Value {
 			}
 			return ZeroExt(t, w)
 		case isInteger(from) && isFloat(to):
+			// a value known (from the path assumptions) to lie in a small non-negative range is
+			// converted from its low bits only: same value, far smaller conversion circuit
+			if lo, hi, ok := st.boundsOf(t, isSigned(from)); ok && lo.Sign() >= 0 && hi.BitLen() < t.Sort.Width()-1 && hi.BitLen() <= 24 {
+				k := hi.BitLen()
+				if k == 0 {
+					k = 1
+				}
+				return FPFromInt(Extract(k-1, 0, t), false, scalarSort(to))
+			}
 			return FPFromInt(t, isSigned(from), scalarSort(to))
 		case isFloat(from) && isInteger(to):
 			return FPToInt(t, isSigned(to), scalarSort(to).Width())
@@ -1239,3 +1248,71 @@ func divByConst(st *State, x, c *Term, signed bool) (q, r *Term, ok bool) {
 
 func deadlineIn(sec int) time.Time { return time.Now().Add(time.Duration(sec) * time.Second) }
 func bigInt(n int64) *big.Int       { return big.NewInt(n) }
+
+// boundsOf: constant bounds lo <= x <= hi found syntactically among the path assumptions.
+func (st *State) boundsOf(x *Term, signed bool) (lo, hi *big.Int, ok bool) {
+	w := x.Sort.Width()
+	var visit func(a *Term)
+	visit = func(a *Term) {
+		switch a.Op {
+		case "and":
+			for _, c := range a.Args {
+				visit(c)
+			}
+		case "bvsle", "bvslt", "bvule", "bvult":
+			l, r := a.Args[0], a.Args[1]
+			sg := a.Op[2] == 's'
+			if sg != signed && !(signed && !sg) {
+				return
+			}
+			val := func(c *Term) *big.Int {
+				if sg {
+					return toSigned(c.Val, w)
+				}
+				return new(big.Int).Set(c.Val)
+			}
+			strict := a.Op[3:] == "lt"
+			if l == x && r.IsConst() {
+				v := val(r)
+				if strict {
+					v.Sub(v, big.NewInt(1))
+				}
+				if hi == nil || v.Cmp(hi) < 0 {
+					hi = v
+				}
+			}
+			if r == x && l.IsConst() {
+				v := val(l)
+				if strict {
+					v.Add(v, big.NewInt(1))
+				}
+				if lo == nil || v.Cmp(lo) > 0 {
+					lo = v
+				}
+			}
+		case "=":
+			if a.Args[0] == x && a.Args[1].IsConst() || a.Args[1] == x && a.Args[0].IsConst() {
+				c := a.Args[1]
+				if a.Args[1] == x {
+					c = a.Args[0]
+				}
+				v := c.Val
+				if signed {
+					v = toSigned(c.Val, w)
+				}
+				lo, hi = v, v
+			}
+		}
+	}
+	for _, a := range st.assumes {
+		visit(a)
+	}
+	if v, isC := st.subst[x]; isC && v.IsConst() {
+		c := v.Val
+		if signed {
+			c = toSigned(v.Val, w)
+		}
+		return c, c, true
+	}
+	return lo, hi, lo != nil && hi != nil
+}
